@@ -30,6 +30,7 @@ RULES_DOC = dict(common.SHARED_DOC)
 RULES_DOC["X9"] = common.X9_DOC
 RULES_DOC["X8"] = common.X8_DOC
 RULES_DOC["X7"] = common.X7_DOC
+RULES_DOC["R10"] = "= C07.R2: the emptiness flag of a pool agrees with its element count on every path (also when the last unit is taken by a remove): a pool that claims to be non-empty for ever keeps its scheduler from finishing"
 RULES_DOC["R9"] = c06_refs.DOC
 RULES_DOC["X5"] = common.X5_DOC
 RULES_DOC["X4"] = common.X4_DOC
@@ -692,3 +693,5 @@ def run(P, rep, tier):
     rule_R6(P, rep)
     rule_R7_R8(P, rep)
     c06_refs.rule_R9(P, rep)
+    from . import C07
+    common.borrow(rep, P, C07.rule_R2, "R10")
